@@ -174,8 +174,10 @@ func calculateExecutionType(
 		return unifiedT
 
 	case base.OPTIONAL_UNIFY:
-		m.evaluatedObjectT.AppendVariant(*base.MakeNil())
-		unifiedT := base.MakeUnifiedT(m.evaluatedObjectT.GetVariants())
+		// the receiver keeps its own variants: nil is added to a copy
+		variants := append([]base.T{}, m.evaluatedObjectT.GetVariants()...)
+		variants = append(variants, *base.MakeNil())
+		unifiedT := base.MakeUnifiedT(variants)
 
 		return unifiedT
 
